@@ -22,7 +22,8 @@ from __future__ import annotations
 import ast
 
 from harness.common import TranslateError, ast_digest, src_text
-from translate.c18_guard import ACCESS, PURE_OS, _coq_ident, _coq_str, _dotted, shared_state_census, wrapper_census
+from translate.c18_guard import (ACCESS, PURE_OS, _coq_ident, _coq_str, _dotted, resolve_method_name, shared_state_census,
+                                  wrapper_census)
 
 # keyword spelling of the path argument of the OS calls
 PATH_KEYWORDS = {'open': ('file',), 'io.open': ('file',), 'os.open': ('path',), 'os.walk': ('top',), 'os.stat': ('path',),
@@ -44,8 +45,9 @@ class _Interp:
     """Abstract interpretation of one method."""
 
     def __init__(self, cls: str, fn: ast.FunctionDef, chain: bool, helpers: dict | None = None,
-                 consts: dict | None = None) -> None:
+                 consts: dict | None = None, resolve: str = '_resolve_path') -> None:
         self.cls, self.fn, self.chain = cls, fn, chain
+        self.resolve = resolve                                 # name of the method that decides containment
         self.helpers = helpers or {}                           # methods of the same class, inlined at `self.m(...)` calls
         self.consts = consts or {}                             # module-level NAME = 'string constant'
         self.stack: list[str] = [fn.name]                      # methods being inlined (recursion fails closed)
@@ -243,7 +245,7 @@ class _Interp:
             if d not in PURE_OS:
                 self.fail(n, f'unclassified call {d}')
         # --- recognised string functions
-        if d == 'self._resolve_path' and len(args) == 1 and not n.keywords:
+        if d == 'self.' + self.resolve and len(args) == 1 and not n.keywords:
             ps = self.strs(self.ev(args[0], env), n, 'argument of _resolve_path')
             self.validated += ps
             return frozenset(S(f'(PResolve {p})') for p in ps)
@@ -479,13 +481,14 @@ def translate() -> tuple[str, dict]:
                 consts[t.id] = st.value.value
     consts = {k: v for k, v in consts.items() if bound.get(k) == 1}
     # methods of RawFileSystem called as `self.m(...)` are inlined at the call (helpers extracted from the public methods)
+    rname = resolve_method_name(classes['RawFileSystem'])
     raw_methods = {fn.name: fn for fn in _methods(classes['RawFileSystem'])}
-    helpers = {k: v for k, v in raw_methods.items() if k not in ('__init__', '_resolve_path', '__repr__')}
+    helpers = {k: v for k, v in raw_methods.items() if k not in ('__init__', rname, '__repr__')}
     inside_raw = {id(x) for x in ast.walk(classes['RawFileSystem'])}
     used_outside = {x.attr for x in ast.walk(tree) if isinstance(x, ast.Attribute) and id(x) not in inside_raw}
     # (calls made by the methods interpreted below: a helper used only by _resolve_path / __init__, which the guard
     # translator reads, is interpreted on its own here so that an OS call inside it is still a site)
-    called_inside = {x.func.attr for fn in _methods(classes['RawFileSystem']) if fn.name not in ('__init__', '__repr__', '_resolve_path')
+    called_inside = {x.func.attr for fn in _methods(classes['RawFileSystem']) if fn.name not in ('__init__', '__repr__', rname)
                      for x in ast.walk(fn) if isinstance(x, ast.Call)
                      and isinstance(x.func, ast.Attribute) and isinstance(x.func.value, ast.Name) and x.func.value.id == 'self'}
     inherited = {f.name for f in _methods(classes['FileSystem'])}
@@ -498,9 +501,9 @@ def translate() -> tuple[str, dict]:
                 and node.attr in private_helpers:
             private_helpers.discard(node.attr) if not _is_called(classes['RawFileSystem'], node) else None
     for fn in _methods(classes['RawFileSystem']):
-        if fn.name in ('__init__', '__repr__', '_resolve_path') or fn.name in private_helpers:
+        if fn.name in ('__init__', '__repr__', rname) or fn.name in private_helpers:
             continue            # __init__/_resolve_path are translated by c18_guard; they contain no OS access
-        it = _Interp('RawFileSystem', fn, chain=False, helpers=helpers, consts=consts)
+        it = _Interp('RawFileSystem', fn, chain=False, helpers=helpers, consts=consts, resolve=rname)
         it.run()
         for callee, branch, line, p in it.sites:
             raw_sites.append((fn.name, callee, branch, p, line))
@@ -512,7 +515,7 @@ def translate() -> tuple[str, dict]:
         raise TranslateError('filesys.py: RawFileSystem has no recognised file-system access site')
     # __init__ / _resolve_path / __repr__ must not touch the OS themselves
     for fn in _methods(classes['RawFileSystem']):
-        if fn.name in ('__init__', '__repr__', '_resolve_path'):
+        if fn.name in ('__init__', '__repr__', rname):
             for node in ast.walk(fn):
                 if isinstance(node, ast.Call) and _dotted(node.func) in ACCESS:
                     raise TranslateError(f'filesys.py:{node.lineno}: RawFileSystem.{fn.name} touches the file system')
